@@ -126,6 +126,7 @@ pub struct ReplRaw<T: 'static> {
 }
 impl<T: 'static> ReplRaw<T> {
     pub fn new(items: Vec<T>) -> Self {
+        let _s = crate::alloc::suspend();
         ReplRaw { items: items.into_iter().map(ManuallyDrop::new).collect(), next: 0 }
     }
 }
